@@ -73,3 +73,11 @@ impl Extractor {
         Ok(())
     }
 }
+
+#[cfg(feature = "verif")]
+impl Extractor {
+    /// One call of the private `extract_files` (verification harness only).
+    pub fn verif_extract_files(&self) -> Result<(), String> {
+        self.extract_files().map_err(|e| e.to_string())
+    }
+}
